@@ -79,6 +79,7 @@ var c20Scenarios = []*c20Scenario{
 	{name: "sm3shared", build: c20BuildSm3},
 	{name: "sm2ops", build: c20BuildSm2Ops},
 	{name: "curveinit", build: c20BuildCurveInit, concFirst: true},
+	{name: "sm2short", build: c20BuildSm2Short},
 	{name: "parse", build: c20BuildParse},
 	{name: "p7enc", build: c20BuildP7Enc},
 	{name: "verifychain", build: c20BuildVerifyChain},
@@ -1120,6 +1121,42 @@ func c20BuildP7Enc(r *rng, g, iters int) *c20Inst {
 }
 
 // ---------------------------------------------------------------------------------------------------
+// sm2short: cheap operations on keys and points whose coordinates have leading zero bytes (the code paths that
+// left-pad a coordinate), every goroutine on its own key: many calls per goroutine, so that two goroutines are
+// inside the padding code at nearly the same time (the race detector only remembers recent accesses)
+
+func c20BuildSm2Short(r *rng, g, iters int) *c20Inst {
+	ds := []int64{327, 107, 17883, 278982, 2, 5, 11, 23, 1000003, 77, 4099, 65537}
+	inst := &c20Inst{calls: make([][]func() string, g)}
+	for gi := 0; gi < g; gi++ {
+		key := privFromD(big.NewInt(ds[gi%len(ds)] + int64(gi/len(ds))))
+		for i := 0; i < iters; i++ {
+			uid := r.bytes(1 + r.intn(20))
+			kind := r.intn(3)
+			inst.calls[gi] = append(inst.calls[gi], func() string {
+				switch kind {
+				case 0:
+					za, err := sm2.ZA(&key.PublicKey, uid)
+					if err != nil {
+						return "err"
+					}
+					return "za:" + hx(za)
+				case 1:
+					return "cmp:" + hx(sm2.Compress(&key.PublicKey))
+				default:
+					dg, err := key.PublicKey.Sm3Digest(uid, uid)
+					if err != nil {
+						return "err"
+					}
+					return "dg:" + hx(dg)
+				}
+			})
+		}
+	}
+	return inst
+}
+
+// ---------------------------------------------------------------------------------------------------
 // verifychain: one root pool and one intermediate pool shared by concurrent Verify calls
 
 // the certificates of the verifychain / poolfirst scenarios
@@ -2004,7 +2041,7 @@ func genC20(r *rng, tier string, emit func(string)) {
 	// deadline in the race-detector build: quick about 45 s for the 20 ops, thorough about 10 min for 120
 	type size struct{ quick, thorough int }
 	calls := map[string]size{
-		"sm4shared": {8000, 40000}, "sm4pkg": {800, 4000}, "sm3shared": {4000, 20000}, "sm2ops": {90, 200}, "curveinit": {32, 64},
+		"sm4shared": {8000, 40000}, "sm4pkg": {800, 4000}, "sm3shared": {4000, 20000}, "sm2ops": {90, 200}, "sm2short": {6000, 30000}, "curveinit": {32, 64},
 		"parse": {300, 1000}, "p7enc": {40, 100}, "verifychain": {120, 400}, "tlsconfig": {30, 80}, "tlsconfigfc": {30, 80},
 	}
 	iters := func(name string, g int, thorough bool) int {
